@@ -1,19 +1,88 @@
 """C14 -- finite prefixes of infinite lists are computed lazily and terminate."""
 from __future__ import annotations
 
+import ast
+
 from .base import Prop, Ground
 from . import lazycommon as lc
+
+# calls a lazy source may flow into without being forced (they keep or wrap the iterator, or only look at its type)
+NON_FORCING = {"iterable", "vy_type", "isinstance", "iter", "next", "safe_apply", "map", "LazyList", "type", "vy_zip", "deep_copy", "lazylist", "enumerate", "zip"}
+WRAPPERS = {"iterable", "iter", "map", "LazyList", "deep_copy", "enumerate", "zip"}  # calls whose result still is (a view of) the source
+# (function key, parameters that carry the lazy source, allowed textual exceptions)
+LAZY_SOURCES = [
+    ("vyxal/elements.py::vy_map", ["lhs", "rhs"], set()),
+    ("vyxal/elements.py::deltas", ["lhs"], set()),
+    ("vyxal/helpers.py::prefixes", ["lhs"], {"len(lhs)", "lhs[:i + 1]"}),  # both in the branch `isinstance(lhs, str)`
+    ("vyxal/helpers.py::scanl", ["vector"], set()),
+    ("vyxal/elements.py::vy_zip", ["lhs", "rhs"], set()),
+]
+
+
+def forcing_uses(fnode, sources, allowed):
+    """every place where a (transitively) source-carrying name is forced: passed to a call outside NON_FORCING,
+    subscripted, or iterated by anything but a `for` statement of a generator.  -> list of texts"""
+    tainted = set(sources)
+
+    def carries(e):  # does the value of e carry the source (type-only calls return no part of it)
+        if isinstance(e, ast.Call) and ast.unparse(e.func).split(".")[-1] not in WRAPPERS:
+            return False  # the result of any other call is a new value; the call itself is judged below
+        if isinstance(e, ast.Name):
+            return e.id in tainted
+        return any(carries(c) for c in ast.iter_child_nodes(e))
+
+    changed = True
+    while changed:  # names assigned from expressions mentioning a source carry it too
+        changed = False
+        for x in ast.walk(fnode):
+            if isinstance(x, ast.Assign) and carries(x.value):
+                for t in x.targets:
+                    for n in ast.walk(t):
+                        if isinstance(n, ast.Name) and n.id not in tainted:
+                            tainted.add(n.id)
+                            changed = True
+    bad = []
+
+    def mentions(e):
+        return any(isinstance(n, ast.Name) and n.id in tainted for n in ast.walk(e))
+
+    for x in ast.walk(fnode):
+        if isinstance(x, ast.Call):
+            f = ast.unparse(x.func)
+            args = list(x.args) + [k.value for k in x.keywords if k.arg != "ctx"]
+            direct = [a for a in args if carries(a)]
+            if direct and f.split(".")[-1] not in NON_FORCING and ast.unparse(x) not in allowed:
+                bad.append(ast.unparse(x))
+        elif isinstance(x, ast.Subscript) and isinstance(x.value, ast.Name) and x.value.id in tainted and isinstance(x.ctx, ast.Load):
+            if ast.unparse(x) not in allowed and not isinstance(x.slice, ast.Constant):
+                bad.append(ast.unparse(x))
+        elif isinstance(x, ast.comprehension) and isinstance(x.iter, ast.Name) and x.iter.id in tainted:
+            bad.append("comprehension over " + x.iter.id)
+        elif isinstance(x, ast.Starred) and isinstance(x.value, ast.Name) and x.value.id in tainted:
+            bad.append("*" + x.value.id)
+    return sorted(set(bad))
 
 
 class C14(Prop):
     id = "C14"
-    contract_modules = ["lazylist"]
+    contract_modules = ["lazylist", "laziness"]
     level = "proof"
     trusted_base = ["CPython semantics of the subset (DESIGN 2.2)", "z3 5.1 / cvc5 1.0.3 (unsat answers)", "vyxalify is the identity on Vyxal values", "laziness of C iterators (map, filter, enumerate, tee, zip_longest) is not modelled"]
-    paper_steps = ["the deductive core is the accessor layer every transformation goes through: has_ind / __getitem__ / __bool__ / __iter__ pull exactly max(0, needed - cached) items (obligations C14-*); the element-level transformations (generators in elements.py) are covered by the bounded stand-in only and are NOT counted as proved"]
+    paper_steps = ["the deductive core is the accessor layer every transformation goes through: has_ind / __getitem__ / __bool__ / __iter__ pull exactly max(0, needed - cached) items (obligations C14-*); five generator transformations (map, deltas, prefixes, cumulative reduction, zip) carry a yield-point contract: when item j is yielded at most j+1 (resp. j+2) source items have been consumed (at-yield obligations), and the source parameter flows only into non-forcing calls and the generator's own `for` (obligations C14/source-not-forced[*]); all other element-level transformations are covered by the bounded stand-in only and are NOT counted as proved"]
 
     def wants(self, name):
         return "C12-" not in name
+
+    def ground(self, W, tier, seed):
+        g = []
+        for key, sources, allowed in LAZY_SOURCES:
+            fn = W.find_function(key)
+            if fn is None:
+                g.append(Ground(f"C14/source-not-forced[{key.split('::')[1]}]", False, "function not found"))
+                continue
+            bad = forcing_uses(fn.node, sources, allowed)
+            g.append(Ground(f"C14/source-not-forced[{fn.name}]", not bad, f"the lazy source reaches a forcing operation: {bad}", witness=dict(function=key, forcing=bad) if bad else None))
+        return g
 
     def sweep(self, ns):
         n_eval = 0
